@@ -57,7 +57,7 @@ impl Prop for C10 {
             "probe.token_after_nonzero_reset", "probe.token_after_advance", "probe.lookahead_token_after_reset",
             "probe.peek_after_reset", "probe.advance_after_reset", "probe.reset_in_nonzero_mode",
             "fault.reset_back", "fault.reset_fwd", "fault.reset_zero", "fault.reset_len", "fault.reset_beyond",
-            "fault.skip_ahead", "fault.mode_override", "probe.positions_wrapped_iterator",
+            "fault.skip_ahead", "fault.mode_override", "probe.positions_wrapped_iterator", "probe.with_offset_mid_history",
         ]
     }
     fn uses_cache(&self) -> bool {
@@ -113,7 +113,7 @@ impl<'w> Gen for Gen10<'w> {
             3 => {
                 let len = self.m.input_of(it).len();
                 let offset = if rng.chance(1, 12) { len + rng.range(1, 4) } else { self.m.pick_boundary(rng, it, None) };
-                Op::SetOffset { it, offset }
+                gen_reset(rng, it, offset)
             }
             4 => Op::SetModeIter { it, mode: rng.below(self.m.n_modes(it)) },
             _ => Op::DropIter { it },
@@ -325,7 +325,11 @@ impl<'w> Exec for Exec10<'w> {
                             Err(pn) => StepOut::fail(Obs::Panic(pn.clone()), viol(format!("C10/panic/advance_to/{}", sut::panic_class(&pn)), idx, "no panic", pn)),
                         }
                     }
-                    Op::SetOffset { offset, .. } => {
+                    Op::SetOffset { offset, .. } | Op::WithOffsetMid { offset, .. } => {
+                        let mid = matches!(op, Op::WithOffsetMid { .. });
+                        if mid {
+                            mark("probe.with_offset_mid_history");
+                        }
                         let len = st.input.len();
                         if *offset <= len && !st.input.is_char_boundary(*offset) {
                             return StepOut::skipped();
@@ -336,7 +340,7 @@ impl<'w> Exec for Exec10<'w> {
                         if mode != 0 {
                             mark("probe.reset_in_nonzero_mode");
                         }
-                        match guarded(|| st.sut.set_offset(*offset)) {
+                        match guarded(|| if mid { st.sut.with_offset_mid(*offset) } else { st.sut.set_offset(*offset) }) {
                             Ok(()) => {
                                 st.shadow = fresh_shadow(&st.sc, st.input, b, mode);
                                 st.base = b;
